@@ -58,7 +58,7 @@ def leaf(kind, dom, n, **kw):
 def tshow(t):
     s = t["s"]
     if s in ("ru", "grid", "gauss", "lhs", "exp"):
-        return "%s(%s,%d%s)%s" % (s, t["dom"], t["n"], ",f" if t.get("filter") else "", "!" if t.get("static") else "")
+        return "%s(%s,%d%s)%s" % (s, t["dom"], t["n"], (",fp" if t.get("filter") == "param" else ",f") if t.get("filter") else "", "!" if t.get("static") else "")
     if s == "data":
         return "data(%s%d,%d)" % (t["var"], t["dim"], t["rows"])
     if s == "empty":
@@ -110,6 +110,9 @@ def leaves(tier):
             out.append(leaf("grid", dom, n))
         out.append(leaf("ru", dom, 3, filter=True))
         out.append(leaf("grid", dom, 3, filter=True))
+        if dom in ("I_t", "C_t", "Tr_t"):
+            out.append(leaf("ru", dom, 3, filter="param"))
+            out.append(leaf("grid", dom, 3, filter="param"))
         if dom in SOLID:
             out.append(leaf("gauss", dom, 3))
             out.append(leaf("lhs", dom, 3))
@@ -228,6 +231,13 @@ def build_sampler(t):
         filt = None
         if t.get("filter"):
             filt = _half_filter(a)
+            if t.get("filter") == "param":
+                # the filter also names the external parameter t, with a declared default that must NOT be used when the
+                # parameter rows supply t: with the default (-10) it would let every point pass
+                c_ = filt._c
+                var_ = G.space_vars(a)[0][0]
+                filt = eval("lambda %s, t=-10.0: (%s[:, :1] <= %r) | (t < -5.0)" % (var_, var_, c_))
+                filt._c = c_
         if s == "ru":
             out = S.RandomUniformSampler(D, n_points=t["n"], filter_fn=filt)
         elif s == "grid":
